@@ -776,7 +776,7 @@ class VectorStarSet(object):
         :param starset: StarSet, from which we pull nearly all of the info that we need
         """
         if starset.Nshells == 0: return
-        if starset == self.starset: return
+        # no shortcut when handed the same StarSet object again: it may have been regenerated in place with another range
         self.starset = starset
         dim = starset.crys.dim
         self.vecpos = []
